@@ -1,6 +1,7 @@
 SPECIFICATION SpecMC
 CONSTANTS
   MaxEnt = 2
+  MinDat = 1
   MaxDat = 2
   DirSizes = {1}
   BufSizes = {2, 3}
